@@ -19,7 +19,7 @@ type mcase struct {
 }
 
 type emitter struct {
-	strings, regexps, ints, lexes, types, parses, texts, values, creates, objects, objectsR []mcase
+	strings, regexps, ints, lexes, types, parses, texts, values, creates, objects, objectsR, exts []mcase
 	pfloats                                                       map[string]bool
 	letters                                                       map[rune]bool
 	tletters                                                      map[rune]bool
@@ -262,6 +262,10 @@ func (e *emitter) flush(cfg *lib.Config, res *lib.Result) {
 		if len(e.objectsR) > 0 || cfg.Replay == "" {
 			write("objects_random", "otab * ihash N N * ores (list oattr) * option (ihash N N)", "object_init_hash_random", "object_mismatches cases", e.objectsR, "")
 		}
+	}
+	if len(e.exts) > 0 || cfg.Replay == "" {
+		imports = []string{"Model.Base", "Model.ObjectExt", "Corr.CorrC05"}
+		write("ext", "list str * list xval * list (str * xval) * xres (list xval) * option (xres (list xval))", "object_type_extension", "ext_mismatches cases", e.exts, "")
 	}
 	flushTypes(e, cfg, res, budget)
 }
